@@ -458,7 +458,7 @@ impl<'a> J<'a> {
             self.rep.count("fs_nx_untrusted_final");
             let tc_seen = out.log.iter().any(|e| e.what == "tc" && e.t >= ws && e.t <= c.end);
             for (i, s) in scn.servers.iter().enumerate() {
-                let contacted = out.log.iter().any(|e| e.server == i && e.t >= ws && e.t <= c.end && matches!(e.kind, "udp-bind" | "udp-send" | "tcp-connect" | "tcp-query"));
+                let contacted = out.log.iter().any(|e| e.server == i && e.t >= ws && e.t <= c.end && matches!(e.kind, "udp-bind" | "udp-send" | "tcp-connect" | "tcp-query" | "tcp-write-error"));
                 if !contacted && !(s.tcp.is_none() && tc_seen) {
                     self.viol(
                         "fs-nx-untrusted",
